@@ -68,6 +68,35 @@ theorem partition_independent {α : Type} (p : Prog α) (src1 src2 : List (List 
   congr 1
   simp [absN, open_, remaining, hcat]
 
+/-- A multi-volume set: the first data node's blocks and the following nodes' blocks. -/
+def openNodes (src : List (List Nat)) (later : List (List (List Nat))) (t : Term) (skips : List Int)
+    (canSkip : Bool) : State :=
+  { src := src, later := later, term := t, skips := skips, canSkip := canSkip }
+
+/-- **C05, multi-volume sets.**  Several sources opened as one multi-volume set
+(`archive_read_open_filenames`, `archive_read_append_callback_data`), each cut into
+read blocks in any way, give every client exactly what the single source holding
+the concatenation of their bytes gives — wherever the volume borders fall, also
+inside a header or a field. -/
+theorem multivolume_concat {α : Type} (p : Prog α) (src1 : List (List Nat)) (later1 : List (List (List Nat)))
+    (src2 : List (List Nat)) (later2 : List (List (List Nat))) (t : Term) (sk1 sk2 : List Int) (cs1 cs2 : Bool)
+    (h1 : SrcOk src1) (hl1 : ∀ n ∈ later1, SrcOk n) (h2 : SrcOk src2) (hl2 : ∀ n ∈ later2, SrcOk n)
+    (hcat : src1.flatten ++ later1.flatten.flatten = src2.flatten ++ later2.flatten.flatten)
+    (hk1 : SkipsOk sk1) (hk2 : SkipsOk sk2) :
+    runImpl p (openNodes src1 later1 t sk1 cs1) = runImpl p (openNodes src2 later2 t sk2 cs2) := by
+  have e1 := run_refines p (openNodes src1 later1 t sk1 cs1) (inv_init_nodes src1 later1 t sk1 cs1 h1 hl1) hk1
+  have e2 := run_refines p (openNodes src2 later2 t sk2 cs2) (inv_init_nodes src2 later2 t sk2 cs2 h2 hl2) hk2
+  rw [e1, e2]
+  congr 1
+  simp [absN, openNodes, remaining, hcat]
+
+/-- Non-vacuity: a header split over three volumes against the single-volume source. -/
+example : SrcOk [[1, 2]] ∧ (∀ n ∈ [[[3]], [[4, 5]]], SrcOk n) ∧ SrcOk [[1, 2, 3, 4, 5]] ∧
+    ([[1, 2]] : List (List Nat)).flatten ++ ([[[3]], [[4, 5]]] : List (List (List Nat))).flatten.flatten =
+      ([[1, 2, 3, 4, 5]] : List (List Nat)).flatten ++ ([] : List (List (List Nat))).flatten.flatten := by
+  refine ⟨by simp [SrcOk], ?_, by simp [SrcOk], by decide⟩
+  intro n hn; simp at hn; rcases hn with rfl | rfl <;> simp [SrcOk]
+
 /-- Non-vacuity: two different partitions of the same five bytes, one with a skip
 callback and one without, satisfy the hypotheses. -/
 example : SrcOk [[1, 2], [3, 4, 5]] ∧ SrcOk [[1], [2], [3], [4], [5]] ∧
